@@ -36,6 +36,23 @@ func init() {
 	)
 }
 
+// StoredTime returns a time of the session state (of a contact, run, step, result or input) as it will be once the session
+// has been marshalled and read back. The zone of a time isn't stored, only its offset: a time at UTC+0 comes back in UTC
+// and any other time in the local zone if that has the same offset at that moment, or else in a fixed zone. Expressions
+// are given the stored form so that tz() or date arithmetic across a DST change don't depend on whether the session
+// has been persisted since the time was taken.
+func StoredTime(t time.Time) time.Time {
+	marshaled, err := t.MarshalJSON()
+	if err != nil {
+		return t
+	}
+	var stored time.Time
+	if err := stored.UnmarshalJSON(marshaled); err != nil {
+		return t
+	}
+	return stored
+}
+
 // Result describes a value captured during a run's execution. It might have been implicitly created by a router, or explicitly
 // created by a [set_run_result](#action:set_run_result) action.
 type Result struct {
@@ -98,7 +115,7 @@ func (r *Result) Context(env envs.Environment) map[string]types.XValue {
 		"input":              types.NewXText(r.Input),
 		"extra":              types.JSONToXValue(r.Extra),
 		"node_uuid":          types.NewXText(string(r.NodeUUID)),
-		"created_on":         types.NewXDateTime(r.CreatedOn),
+		"created_on":         types.NewXDateTime(StoredTime(r.CreatedOn)),
 
 		// deprecated
 		"values":               values,
